@@ -29,6 +29,7 @@ AllOpPorts  == Sw \X Ports
 NoOps       == {}
 NoOpPorts   == {}
 OneOpPorts  == {<<1, 1>>, <<1, 2>>}
+OneOpPorts1 == {<<1, 1>>}
 PairOpPorts == {<<1, 1>>, <<2, 2>>}
 AllOps      == {"add", "del", "down", "up"}
 LinkOps     == {"down", "up"}
